@@ -14,6 +14,7 @@ import TraitsVerif.Driver.Proto
 import TraitsVerif.Model.PyValidate
 import TraitsVerif.Model.Domain
 import TraitsVerif.Model.Assign
+import TraitsVerif.Model.CSrcRun
 namespace TraitsVerif.Driver.Val
 open TraitsVerif TraitsVerif.Py.Value TraitsVerif.Model.Val TraitsVerif.Proto
 
@@ -435,13 +436,32 @@ partial def showDesc : Desc → String
 
 /-! ## case kinds -/
 
+/-- Loop bound for the interpreted source text (descriptor tuples of the harness are far shorter). -/
+def srcFuel : Nat := 64
+
+/-- The hand-written model next to the interpretation of the translated C source text
+(Model/CSrcRun.lean): equal (modulo `norm`) on every case, or the line says so.  Inner
+traits of a Tuple validate with the model (`fastAlone`); `default_value_for` of a compound
+is taken to be None (finding F49: such members are not generated inside compounds). -/
+def srcTag (src : Option Res) (model : Res) : String :=
+  if src == some (Model.CSrc.norm model) then "" else "SRC-MISMATCH "
+
 def handleV (E : Env) (tt : TraitType) (v : Val) : String :=
   let d := descOf E tt
   let fast := match d with
-    | some d => showRes (fastAlone E d v)
+    | some d =>
+      (match d with
+       | .slow _ => ""
+       | _ => srcTag (Model.CSrc.srcAlone E (fastAlone E) Val.none srcFuel d v) (fastAlone E d v)) ++
+      showRes (fastAlone E d v)
     | none => "-"
   let cmp := match d with
-    | some d => if complexCaseLabels.contains d.kind && d.kind ≠ 8 then showRes (fastInCompound E d v) else "-"
+    | some d =>
+      if complexCaseLabels.contains d.kind && d.kind ≠ 8 then
+        srcTag (Model.CSrc.srcFn E (fastAlone E) Val.none srcFuel "validate_trait_complex" (.complex [d]) v)
+          (fastInCompound E d v) ++
+        showRes (fastInCompound E d v)
+      else "-"
     | none => "-"
   let py := if hasPy tt then showRes (pyValidate E tt v) else "-"
   s!"fast={fast} cmp={cmp} py={py}"
